@@ -689,7 +689,11 @@ impl SignedAmount {
     /// Checked remainder.
     /// Returns [`None`] if overflow occurred.
     pub fn checked_rem(self, rhs: i64) -> Option<SignedAmount> {
-        self.0.checked_rem(rhs).map(SignedAmount)
+        if rhs == 0 {
+            return None;
+        }
+        // `i64::checked_rem` also refuses `i64::MIN % -1` although the remainder, 0, is exact
+        Some(SignedAmount(self.0.wrapping_rem(rhs)))
     }
 
     /// Subtraction that doesn't allow negative [`SignedAmount`]s.
